@@ -212,11 +212,19 @@ impl Codec {
     fn encode_item(&self, item: Encoded, dst: &mut BytePages) -> Result<(), EncodeError> {
         match item {
             Encoded::Packet(pkt) => {
+                if self.encoding_payload.get().is_some() {
+                    log::trace!("Expect payload, received {pkt:?}");
+                    return Err(EncodeError::ExpectPayload);
+                }
                 let content_size = encode::get_encoded_size(&pkt);
                 encode::encode(&pkt, dst, content_size as u32)?;
                 Ok(())
             }
             Encoded::Publish(pkt, buf) => {
+                if self.encoding_payload.get().is_some() {
+                    log::trace!("Expect payload, received {pkt:?}");
+                    return Err(EncodeError::ExpectPayload);
+                }
                 let Publish { qos, packet_id, .. } = pkt;
                 if (qos == QoS::AtLeastOnce || qos == QoS::ExactlyOnce) && packet_id.is_none() {
                     return Err(EncodeError::PacketIdRequired);
